@@ -100,32 +100,47 @@ Proof.
   destruct o; rewrite ?andb_true_iff, ?job_eqb_eq, ?nil_effs_spec; tauto.
 Qed.
 
+Lemma timeout_cleansb_spec ops : forall obs mine prev,
+  timeout_cleansb mine prev ops obs = true <-> timeout_cleans mine prev ops obs.
+Proof.
+  induction ops as [|o t IH]; intros obs mine prev; cbn; [tauto|].
+  destruct obs as [|ob tb]; [tauto|].
+  rewrite andb_true_iff, IH, !orb_true_iff, !negb_true_iff. unfold is_none.
+  destruct (timed_out prev (o_job ob)), mine, (o_res ob); split; intros (A & B); split; auto;
+    try (intros; discriminate); try (intros; reflexivity).
+  - destruct A as [[A|A]|A]; discriminate.
+  - exfalso. specialize (A eq_refl eq_refl). discriminate.
+Qed.
+
 Theorem prop_code_spec j0 ops obs : prop_code j0 ops obs = 0 <-> C17_holds j0 ops obs.
 Proof.
-  unfold prop_code, C17_holds.
+  unfold prop_code, C17_holds, C17_core.
   rewrite <- evict_guardb_spec, <- absorbingb_spec, <- timeout_deletesb_spec,
-          <- at_most_onceb_spec, <- frameb_spec, <- evict_other_nodeb_spec.
+          <- at_most_onceb_spec, <- frameb_spec, <- evict_other_nodeb_spec, <- timeout_cleansb_spec.
   destruct (Nat.eqb (length obs) (length ops)) eqn:L; cbn.
   2: { apply Nat.eqb_neq in L. split; [discriminate|tauto]. }
   apply Nat.eqb_eq in L.
-  destruct (evict_guardb j0 obs); cbn; [|split; [discriminate|intros (_&?&_); discriminate]].
-  destruct (absorbingb j0 obs); cbn; [|split; [discriminate|intros (_&_&?&_); discriminate]].
-  destruct (timeout_deletesb j0 obs); cbn; [|split; [discriminate|intros (_&_&_&?&_); discriminate]].
-  destruct (at_most_onceb ops obs); cbn; [|split; [discriminate|intros (_&_&_&_&?&_); discriminate]].
-  destruct (frameb j0 ops obs); cbn; [|split; [discriminate|intros (_&_&_&_&_&?&_); discriminate]].
-  destruct (evict_other_nodeb j0 obs); cbn; [|split; [discriminate|intros (_&_&_&_&_&_&?); discriminate]].
+  destruct (evict_guardb j0 obs); cbn; [|split; [discriminate|intros ((_&?&_)&_); discriminate]].
+  destruct (absorbingb j0 obs); cbn; [|split; [discriminate|intros ((_&_&?&_)&_); discriminate]].
+  destruct (timeout_deletesb j0 obs); cbn; [|split; [discriminate|intros ((_&_&_&?&_)&_); discriminate]].
+  destruct (at_most_onceb ops obs); cbn; [|split; [discriminate|intros ((_&_&_&_&?&_)&_); discriminate]].
+  destruct (frameb j0 ops obs); cbn; [|split; [discriminate|intros ((_&_&_&_&_&?&_)&_); discriminate]].
+  destruct (evict_other_nodeb j0 obs); cbn; [|split; [discriminate|intros ((_&_&_&_&_&_&?)&_); discriminate]].
+  destruct (timeout_cleansb false j0 ops obs); cbn; [|split; [discriminate|intros (_&?); discriminate]].
   tauto.
 Qed.
 
-(* the codes of the clauses, for the old variant's theorem *)
-Lemma prop_code_7 j0 ops obs :
+(* with clauses 1-6 established, the code is decided by the last two tests *)
+Lemma prop_code_tail j0 ops obs :
   length obs = length ops -> evict_guard j0 obs -> absorbing j0 obs -> timeout_deletes j0 obs ->
   at_most_once ops obs -> frame j0 ops obs ->
-  prop_code j0 ops obs = 0 \/ prop_code j0 ops obs = 7.
+  prop_code j0 ops obs =
+    if negb (evict_other_nodeb j0 obs) then 7
+    else if negb (timeout_cleansb false j0 ops obs) then 8 else 0.
 Proof.
   intros L G A T O F. unfold prop_code.
   apply Nat.eqb_eq in L. rewrite L.
   apply evict_guardb_spec in G. apply absorbingb_spec in A. apply timeout_deletesb_spec in T.
   apply at_most_onceb_spec in O. apply frameb_spec in F.
-  rewrite G, A, T, O, F. cbn. destruct (evict_other_nodeb j0 obs); cbn; auto.
+  rewrite G, A, T, O, F. reflexivity.
 Qed.
